@@ -2,8 +2,10 @@ package rules
 
 import (
 	"fmt"
+
 	"go/token"
 	"go/types"
+	"golang.org/x/tools/go/callgraph"
 	"reflect"
 	"sort"
 	"strings"
@@ -684,6 +686,17 @@ func init() {
 // stream, unconditionally — and thereby from inside string values.
 func inputRewriters(c *core.Ctx, rule string, pkgs []string) {
 	c.SSA()
+	cgOf = c.CallGraph()
+	storeIdx := map[*types.Var][]ssa.Value{}
+	for _, f := range c.RepoFunctions() {
+		for _, w := range core.Writes(f) {
+			if w.Kind == "field" && w.Field != nil {
+				storeIdx[w.Field] = append(storeIdx[w.Field], w.Val)
+			}
+		}
+	}
+	fieldStores = func(fv *types.Var) []ssa.Value { return storeIdx[fv] }
+	defer func() { cgOf, fieldStores = nil, nil }()
 	ioPkg := c.AnyPkg("io")
 	if ioPkg == nil {
 		c.Unresolved(rule, "package io", "not loaded")
@@ -740,6 +753,11 @@ func inputRewriters(c *core.Ctx, rule string, pkgs []string) {
 
 // controlledByDeclaredSetting: the block is dominated by a successor of an If whose condition data-depends on a load of
 // an exported json-tagged struct field.
+// cgOf / fieldStores are set by inputRewriters for the duration of its run (call graph of the program; all values stored
+// into a struct field by repository code, composite literals included).
+var cgOf *callgraph.Graph
+var fieldStores func(fv *types.Var) []ssa.Value
+
 func controlledByDeclaredSetting(b *ssa.BasicBlock) (string, bool) {
 	f := b.Parent()
 	var dependsOnDecl func(v ssa.Value, seen map[ssa.Value]bool, d int) (string, bool)
@@ -759,6 +777,66 @@ func controlledByDeclaredSetting(b *ssa.BasicBlock) (string, bool) {
 							}
 						}
 					}
+				}
+			}
+		}
+		// a value handed in by the callers (extracted constructor): every static call site must pass a declared setting
+		if p, ok := v.(*ssa.Parameter); ok && cgOf != nil {
+			pf := p.Parent()
+			idx := -1
+			for i, q := range pf.Params {
+				if q == p {
+					idx = i
+				}
+			}
+			if node := cgOf.Nodes[pf]; node != nil && idx >= 0 && len(node.In) > 0 {
+				name := ""
+				for _, e := range node.In {
+					if e.Site == nil || e.Site.Common().StaticCallee() != pf || idx >= len(e.Site.Common().Args) {
+						return "", false
+					}
+					n, ok := dependsOnDecl(e.Site.Common().Args[idx], seen, d+1)
+					if !ok {
+						return "", false
+					}
+					name = n
+				}
+				return name, name != ""
+			}
+			return "", false
+		}
+		// a field of an options struct: every store to that field carries a declared setting
+		if u, ok := v.(*ssa.UnOp); ok && u.Op == token.MUL {
+			if fa, ok := u.X.(*ssa.FieldAddr); ok {
+				if fv := core.FieldOfAddr(fa); fv != nil && fieldStores != nil {
+					name, n := "", 0
+					for _, val := range fieldStores(fv) {
+						n++
+						nm, ok := dependsOnDecl(val, seen, d+1)
+						if !ok {
+							return "", false
+						}
+						name = nm
+					}
+					if n > 0 {
+						return name, true
+					}
+				}
+			}
+		}
+		if fl, ok := v.(*ssa.Field); ok {
+			if fv := core.FieldOfField(fl); fv != nil && fieldStores != nil {
+				name, n := "", 0
+				for _, val := range fieldStores(fv) {
+					n++
+					nm, ok := dependsOnDecl(val, seen, d+1)
+					if !ok {
+						return "", false
+					}
+					name = nm
+				}
+				if n > 0 {
+					return name, true
 				}
 			}
 		}
@@ -1392,6 +1470,17 @@ func exclusiveRuntime(c *core.Ctx, rule string) {
 				case *ssa.TypeAssert:
 					origin(x.X, d+1)
 				case *ssa.Extract:
+					if call, ok := x.Tuple.(*ssa.Call); ok {
+						if cf := call.Call.StaticCallee(); cf != nil && cf.Blocks != nil && core.InRepo(core.FuncPkg(cf)) && !poolGetCall(call) {
+							// a repository helper that hands out the runtime: every value it returns in that position
+							for _, rt := range c19Returns(cf) {
+								if x.Index < len(rt.Results) {
+									origin(rt.Results[x.Index], d+1)
+								}
+							}
+							return
+						}
+					}
 					origin(x.Tuple, d+1)
 				case *ssa.ChangeType:
 					origin(x.X, d+1)
@@ -1425,6 +1514,12 @@ func exclusiveRuntime(c *core.Ctx, rule string) {
 					bad = "a value loaded from memory (" + x.String() + ")"
 				case *ssa.Call:
 					if isGojaFunc(x, "New") || poolGetCall(x) {
+						return
+					}
+					if cf := x.Call.StaticCallee(); cf != nil && cf.Blocks != nil && core.InRepo(core.FuncPkg(cf)) && cf.Signature.Results().Len() == 1 {
+						for _, rt := range c19Returns(cf) {
+							origin(rt.Results[0], d+1)
+						}
 						return
 					}
 					bad = "the result of " + x.Call.String()
